@@ -82,6 +82,10 @@ func c17(r *vlib.Run) int {
 			c17Damaged(r, i, crng, keys, keyFiles, client)
 			return
 		}
+		if i%16 == 9 {
+			c17TrustAllMany(r, i, crng, keys, keyFiles, client)
+			return
+		}
 		if i%8 == 5 {
 			c17OutputModes(r, i, crng, keys, keyFiles, client)
 			return
@@ -744,6 +748,107 @@ func c17Staggered(r *vlib.Run, i int, rng *rand.Rand, keys []*vlib.Key, keyFiles
 	}
 	if firstYes && !strings.Contains(string(after), knownhosts.Normalize(addrA)+" ") {
 		r.Violation("newly-trusted-host-not-recorded", d)
+	}
+}
+
+// c17TrustAllMany: trust-all against eight unknown servers that finish their key exchange at the same time, with a
+// known_hosts file of a few thousand unrelated entries (so that recording takes a while): every server is served,
+// every one of them is recorded, every old line is still there.
+func c17TrustAllMany(r *vlib.Run, i int, rng *rand.Rand, keys []*vlib.Key, keyFiles []string, client *vlib.Key) {
+	const n = 8
+	var ports []int
+	for len(ports) < n {
+		p := vlib.FreePort()
+		dup := p == 0
+		for _, q := range ports {
+			dup = dup || q == p
+		}
+		if !dup {
+			ports = append(ports, p)
+		}
+	}
+	home, keyFile := r.ClientHome(fmt.Sprintf("c17m-%d", i), client)
+	defer os.RemoveAll(home)
+	var lines []string
+	for k := 0; k < 2500+rng.Intn(1000); k++ {
+		key := keys[5+k%4]
+		switch k % 4 {
+		case 0:
+			lines = append(lines, khLine(fmt.Sprintf("host%04d.example.org:22", k), key))
+		case 1:
+			lines = append(lines, khHashed(fmt.Sprintf("10.%d.%d.7:2222", k/250, k%250), key))
+		case 2:
+			lines = append(lines, khLine(fmt.Sprintf("10.7.%d.%d:2222", k/250, k%250), key))
+		default:
+			lines = append(lines, fmt.Sprintf("# note %d", k))
+		}
+	}
+	khPath := filepath.Join(home, ".ssh", "known_hosts")
+	os.WriteFile(khPath, []byte(strings.Join(lines, "\n")+"\n"), 0600)
+	kf := make([]string, n)
+	for k := range kf {
+		kf[k] = keyFiles[k%5]
+	}
+	f, err := startFakeSSHD(r, fmt.Sprintf("c17m-%d", i), ports, kf, "", 200)
+	if err != nil {
+		r.Inconclusive("fakesshd")
+		return
+	}
+	defer f.Stop()
+	var addrs []string
+	for _, p := range ports {
+		addrs = append(addrs, fmt.Sprintf("127.0.0.1:%d", p))
+	}
+	args := []string{"--cfg", "none", "--logger", "none", "--key", keyFile, "--user", "tester", "--servers", strings.Join(addrs, ","), "--files", "/var/log/x.log", "--trustAllHosts"}
+	res := vlib.RunCmd(vlib.Cmd{Path: r.Bin("dcat"), Args: args, Env: []string{"HOME=" + home}, Dir: home, Stdin: []byte("n\nn\n"), Watchdog: 90 * time.Second})
+	r.Eval(fmt.Sprintf("trust-all-many|%d", len(lines)))
+	r.Count("trust_all_runs_against_eight_unknown_servers", 1)
+	if res.TimedOut || res.Hung {
+		r.Inconclusive("dcat-watchdog-or-hung")
+		return
+	}
+	served := map[int]bool{}
+	for _, e := range f.Events() {
+		if e.Ev == "shell" || e.Ev == "data" {
+			served[e.Port] = true
+		}
+	}
+	after, _ := os.ReadFile(khPath)
+	d := map[string]interface{}{"servers": addrs, "old_known_hosts_lines": len(lines), "exit": res.Exit, "known_hosts_lines_after": strings.Count(string(after), "\n")}
+	if res.Panicked() {
+		d["stderr"] = vlib.Trunc(string(res.Stderr), 1500)
+		r.Violation("client-crash", d)
+		return
+	}
+	var missing, unserved []string
+	for k, a := range addrs {
+		if !strings.Contains("\n"+string(after), "\n"+knownhosts.Normalize(a)+" ") {
+			missing = append(missing, a)
+		}
+		if !served[ports[k]] {
+			unserved = append(unserved, a)
+		}
+	}
+	if len(unserved) > 0 {
+		d["not_served"] = unserved
+		r.Violation("trusted-server-not-contacted", d)
+		return
+	}
+	if len(missing) > 0 {
+		d["not_recorded"] = missing
+		r.Violation("newly-trusted-host-not-recorded", d)
+		return
+	}
+	have := map[string]bool{}
+	for _, l := range strings.Split(string(after), "\n") {
+		have[l] = true
+	}
+	for _, l := range lines {
+		if !have[l] {
+			d["lost_line"] = vlib.Trunc(l, 200)
+			r.Violation("unrelated-known-hosts-entry-lost", d)
+			return
+		}
 	}
 }
 
